@@ -348,7 +348,7 @@ def atom(e):
 
 # ------------------------------------------------------------------ decoder: integer code -> program (breadth first)
 LEAVES = [('var', ''), ('var', 'x'), ('lit', 1), ('mem', ('var', ''), 'a'), ('var', 'y'), ('mem', ('var', ''), 'b'),
-          ('var', '2'), ('lit', None)]
+          ('var', '2')]
 KINDS = ['leaf', 'list', 'bin+', 'select', 'let1', 'mem', 'defc', 'where', 'with', 'unpk', 'idx', 'map', 'bin>', 'call',
          'clos', 'let2', 'letp', 'sum', 'unp0', 'len', 'callkw']
 
